@@ -116,6 +116,7 @@ func check(c Case) error {
 	p := filepath.Join(vk.WorkDir(), "x.gbk")
 	defer os.Remove(p)
 	var z poly.Sequence
+	vk.StaleFile(p, 2*len(text)+500)
 	if err := safely("Write/Read", func() { genbank.Write(x, p); z = genbank.Read(p) }); err != nil {
 		return err
 	}
